@@ -123,6 +123,7 @@ inductive SockItem where
 
 structure DConn where
   idx : Nat
+  addr : Nat := 0                  -- client address (per-IP limit, accept policy)
   conn : Conn HApp
   sock : List SockItem := []
   pending : Bool := true           -- added, start notification not yet delivered
@@ -155,9 +156,23 @@ structure D where
   resps : List (Nat × RespSpec) := []
   seq : Nat := 1
   failCalloc : Bool := false
-  failEpollAdd : Bool := false
+  failEpollAddIn : Option Nat := none   -- the k-th next epoll_ctl(EPOLL_CTL_ADD) fails (0 = the next one)
+  limit : Nat := 0                 -- MHD_OPTION_CONNECTION_LIMIT (0: not set)
+  perip : Nat := 0                 -- MHD_OPTION_PER_IP_CONNECTION_LIMIT (0: not set)
+  apcDeny : Option Nat := none     -- accept policy callback rejects this address
+  nconn : Nat := 0                 -- daemon->connections
+  ipCount : List (Nat × Nat) := [] -- per-IP counters
   cfg : Cfg := {}
   deriving Inhabited
+
+/-- does the next epoll_ctl(EPOLL_CTL_ADD) fail -/
+def D.failEpollAdd (d : D) : Bool := d.failEpollAddIn == some 0
+/-- one epoll_ctl(EPOLL_CTL_ADD) has been made -/
+def D.epollAddTick (d : D) : D :=
+  { d with failEpollAddIn := match d.failEpollAddIn with
+      | some 0 => none
+      | some (k + 1) => some k
+      | none => none }
 
 def stName (s : CState) : Nat := s.toNat
 
@@ -222,7 +237,7 @@ def doIdle (d : D) (dc : DConn) : D × DConn × List String :=
       let dcr := { dc with trace := dc.trace }
       apply d dcr (.idle { env with epollAdd := some (!d.failEpollAdd) })
     else (dc1, out1)
-  let d := if needAdd && d.failEpollAdd then { d with failEpollAdd := false } else d
+  let d := if needAdd then d.epollAddTick else d
   let d := if d.failCalloc && !swe && dc2.conn.stopWithError then { d with failCalloc := false } else d
   -- a handled no-space marker is removed from the socket
   let dc2 := match dc2.sock with
@@ -344,13 +359,27 @@ def processResumes (d : D) : D × List String :=
       (setConn { d with seq := d.seq + 1 } dc1, out ++ o)
     else (setConn d { dc with resuming := false }, out)) (d, [])
 
+def ipGet (d : D) (a : Nat) : Nat := (d.ipCount.find? (·.1 == a)).map (·.2) |>.getD 0
+def ipSet (d : D) (a n : Nat) : D := { d with ipCount := (a, n) :: d.ipCount.filter (·.1 != a) }
+def ipDec (d : D) (a : Nat) : D := if d.perip == 0 then d else ipSet d a (ipGet d a - 1)
+
+/-- new_connections_list_process_ / new_connection_process_: queued connections in FIFO order; the firm check of
+    the connection limit refuses silently (no notification); epoll_ctl(ADD) failure: STARTED and CLOSED at once -/
 def processNew (d : D) : D × List String × List Nat :=
-  d.conns.foldl (fun (acc : D × List String × List Nat) dc0 =>
+  d.conns.reverse.foldl (fun (acc : D × List String × List Nat) dc0 =>
     let (d, out, fresh) := acc
     let dc := ((getConn d dc0.idx).getD dc0)
     if dc.pending then
-      let (dc1, o) := apply d { dc with pending := false } .start
-      (setConn d { dc1 with newData := true }, out ++ o, dc.idx :: fresh)
+      if d.limit != 0 && d.nconn ≥ d.limit then
+        (ipDec { d with conns := d.conns.filter (·.idx != dc.idx) } dc.addr, out, fresh)
+      else if d.cfg.epoll && d.failEpollAdd then
+        let (dc1, o) := apply d { dc with pending := false } .startFailed
+        (setConn (ipDec d.epollAddTick dc.addr) dc1, out ++ o, fresh)
+      else
+        let dc := if d.timeoutMs != 0 then { dc with lastActivity := d.now } else dc
+        let (dc1, o) := apply d { dc with pending := false } .start
+        let d := if d.cfg.epoll then d.epollAddTick else d
+        (setConn { d with nconn := d.nconn + 1 } { dc1 with newData := true }, out ++ o, dc.idx :: fresh)
     else (d, out, fresh)) (d, [], [])
 
 def processCleanup (d : D) : D × List String :=
@@ -359,7 +388,7 @@ def processCleanup (d : D) : D × List String :=
     let dc := ((getConn d dc0.idx).getD dc0)
     if dc.conn.inCleanup && !dc.conn.cleaned then
       let (dc1, o) := apply d dc .cleanup
-      (setConn d dc1, out ++ o)
+      (setConn (ipDec { d with nconn := d.nconn - 1 } dc.addr) dc1, out ++ o)
     else (d, out)) (d, [])
 
 def live (dc : DConn) : Bool := dc.conn.started && !dc.conn.inCleanup && !dc.conn.cleaned && !dc.conn.suspended
@@ -561,6 +590,9 @@ def stepLine (d : D) (ws : List String) : D × List String :=
       let d := kvs.foldl (fun d w => match kvOf w with
         | some ("mode", v) => { d with mode := v }
         | some ("timeout", v) => { d with timeoutMs := (v.toNat?.getD 0) * 1000 }
+        | some ("limit", v) => { d with limit := v.toNat?.getD 0 }
+        | some ("perip", v) => { d with perip := v.toNat?.getD 0 }
+        | some ("apc", v) => { d with apcDeny := v.toNat? }
         | some ("suspend", v) => { d with suspend := v == "1" }
         | some ("upgrade", v) => { d with upgrade := v == "1" }
         | some ("urilog", v) => { d with uriLog := v == "1" }
@@ -599,14 +631,20 @@ def stepLine (d : D) (ws : List String) : D × List String :=
       | _ => (d, ["bad-op"])
     else
     match ws with
-    | ["arrive", c, _] =>
-        match c.toNat? with
-        | some c =>
+    | ["arrive", c, a] =>
+        match c.toNat?, a.toNat? with
+        | some c, some a =>
             if (findConn d c).isSome then (d, ["bad-op"]) else
+            -- new_connection_prepare_: quick check of the connection limit, per-IP limit, accept policy —
+            -- a connection refused here is never announced
+            if d.limit != 0 && d.nconn == d.limit then (d, [s!"arrive c={c} refused"]) else
+            if d.perip != 0 && ipGet d a ≥ d.perip then (d, [s!"arrive c={c} refused"]) else
+            if d.apcDeny == some a then (d, [s!"arrive c={c} refused"]) else
+            let d := if d.perip != 0 then ipSet d a (ipGet d a + 1) else d
             let app : HApp := { behs := lookup d.behs c, resps := d.resps, upgradeAllowed := d.upgrade }
-            let dc : DConn := { idx := c, conn := Conn.init app, lastActivity := d.now, actSeq := d.seq }
+            let dc : DConn := { idx := c, addr := a, conn := Conn.init app, lastActivity := d.now, actSeq := d.seq }
             ({ d with conns := dc :: d.conns, seq := d.seq + 1 }, [s!"arrive c={c}"])
-        | none => (d, ["bad-op"])
+        | _, _ => (d, ["bad-op"])
     | "send" :: c :: _hex :: toks =>
         match c.toNat?.bind (findConn d) with
         | none => (d, ["bad-op"])
@@ -661,7 +699,7 @@ def stepLine (d : D) (ws : List String) : D × List String :=
             (setConn d dc1, o ++ ["ok"])
         | _, _ => (d, ["bad-op"])
     | ["fail-calloc", _] => ({ d with failCalloc := true }, ["ok"])
-    | ["fail-epoll-add", _] => ({ d with failEpollAdd := true }, ["ok"])
+    | ["fail-epoll-add", k] => ({ d with failEpollAddIn := k.toNat? }, ["ok"])
     | ["stop"] =>
         let (d, o) := stopDaemon d
         (d, o ++ modelCheck d ++ ["stopped"])
